@@ -66,6 +66,11 @@ def gen_cases(tier, seed):
                 for L in b["lengths"]:
                     yield {"kind": "slices", "cls": cls, "rate": rate, "start": st, "L": L, "steps": b["steps"]}
                 yield {"kind": "crops", "cls": cls, "rate": rate, "start": st, "lengths": [x for x in b["lengths"] if x]}
+            if cls in ("Signal", "DualPolarizationSignal") and (tier != "quick" or ri % 2 == 0):
+                # a start time kept on the TAI scale (MJD format)
+                for L in (2, 9):
+                    yield {"kind": "slices", "cls": cls, "rate": rate, "start": "tai", "L": L, "steps": b["steps"]}
+                yield {"kind": "crops", "cls": cls, "rate": rate, "start": "tai", "lengths": [5, 9]}
     for cls in ("BasebandSignal", "DualPolarizationSignal"):
         for rate in ("1kHz", "1MHz", "3.7GHz"):
             for st in ("none", "iso"):
@@ -73,7 +78,7 @@ def gen_cases(tier, seed):
     for cls in factory.CLASSES:
         yield {"kind": "setters", "cls": cls, "rate": "1kHz", "start": "iso"}
     yield {"kind": "setters", "cls": "BasebandSignal", "rate": "3.7GHz", "start": "none"}
-    for cls, rate, st in b["bfs_cfg"]:
+    for cls, rate, st in list(b["bfs_cfg"]) + [("RadioSignal", "1kHz", "tai")]:
         yield {"kind": "bfs", "cls": cls, "rate": rate, "start": st, "L": b["bfs_L"], "depth": b["bfs_depth"]}
 
 
